@@ -23,7 +23,7 @@ cd /verif
 # as applying the patch to /repo and reverting it, without disturbing checks that run meanwhile
 for c in "$@"; do
   echo "== check $c on the changed tree"
-  VERIF_REPO=$T/wt ./check $c --tier quick > $T/out.$c 2>&1; rc=$?
+  VERIF_EVIDENCE_DIR=$T/evidence VERIF_REPO=$T/wt ./check $c --tier quick > $T/out.$c 2>&1; rc=$?
   grep -a "VIOLATION\|^OK\|INCONCL" $T/out.$c | head -3
   echo "exit=$rc"
 done
